@@ -2,6 +2,7 @@ package main
 
 import (
 	"flag"
+	"regexp"
 	"go/types"
 	"fmt"
 	"os"
@@ -50,6 +51,7 @@ func cmdFn(args []string) {
 	dump := fs.String("dump", "", "write the full query of the first function to this file")
 	noinline := fs.Bool("noinline", false, "disable inlining")
 	doReplay := fs.Bool("replay", false, "replay sat obligations on the real code")
+	explain := fs.String("explain", "", "substring of an obligation name: print the goal and the model values of the names it mentions")
 	fs.Parse(args)
 	t0 := time.Now()
 	P, err := loadProgram(*repo, []string{"./..."})
@@ -104,6 +106,9 @@ func cmdFn(args []string) {
 				}
 				if o.Status != "unsat" {
 					fmt.Printf("    %-8s %s  [%s:%d] %s\n", o.Status, o.Name, o.Pos.Filename[strings.LastIndex(o.Pos.Filename, "/")+1:], o.Pos.Line, o.Solver)
+					if *explain != "" && strings.Contains(o.Name, *explain) && o.Status == "sat" {
+						vc.explain(o)
+					}
 					if *doReplay && o.Status == "sat" {
 						if rr := P.replay(o, vc, *repo); rr != nil {
 							fmt.Printf("      replay: reproduced=%v %s\n", rr.Reproduced, rr.Note)
@@ -269,4 +274,44 @@ func (P *Program) explainStar(fn *ssa.Function, depth int, seen map[*ssa.Functio
 			}
 		}
 	}
+}
+
+// explain prints the refuted goal and the model values of the named terms it mentions (one level deep).
+func (vc *VC) explain(o *Oblig) {
+	fmt.Println("      goal:", truncate(o.goal.S, 1500))
+	defs := map[string]string{}
+	re := regexp.MustCompile(`^\((?:define-fun|declare-const) (\S+|\|[^|]*\|) `)
+	for i := 0; i < o.itemIdx && i < len(vc.items); i++ {
+		if m := re.FindStringSubmatch(vc.items[i].text); m != nil {
+			defs[m[1]] = vc.items[i].text
+		}
+	}
+	tokRe := regexp.MustCompile(`\|[^|]*\||[A-Za-z_$!.][A-Za-z0-9_$!.#@~+-]*`)
+	want := map[string]bool{}
+	var order []string
+	add := func(text string) {
+		for _, t := range tokRe.FindAllString(text, -1) {
+			if _, ok := defs[t]; ok && !want[t] {
+				want[t] = true
+				order = append(order, t)
+			}
+		}
+	}
+	add(o.goal.S)
+	add(o.pc.S)
+	n := len(order)
+	for _, t := range order[:n] {
+		add(defs[t])
+	}
+	if len(order) > 60 {
+		order = order[:60]
+	}
+	vc.renderAllDecls = false
+	q := vc.render([]*Oblig{o}, "z3", 20000) + "(get-value (" + strings.Join(order, " ") + "))\n"
+	r := raceSolve(map[string]string{"z3": q}, "explain", 20000, false, []string{"z3-new"})
+	out := r.output
+	if len(out) > 6000 {
+		out = out[:6000]
+	}
+	fmt.Println("      model:", strings.ReplaceAll(out, "\n", "\n        "))
 }
